@@ -177,6 +177,13 @@ func registerIntrinsics(x *Exec) {
 		"internal/race.ReadRange", "internal/race.WriteRange"} {
 		in[n] = noop
 	}
+	// clock stub: llgo's monotonic clock (clock_gettime behind FFI) returns an
+	// arbitrary instant on every call - time is a solver variable, so both the
+	// normal and the starvation mode of sync.Mutex are explored
+	in["github.com/goplus/llgo/runtime/internal/lib/runtime.runtimeNano"] = func(x *Exec, fr *frame, args []Value, _ *ssa.CallCommon) Value {
+		x.Stubs["runtimeNano -> arbitrary instant (clock stub)"] = true
+		return x.M.Fresh("nanotime", 64)
+	}
 	in["os.ReadFile"] = func(x *Exec, fr *frame, args []Value, _ *ssa.CallCommon) Value {
 		// environment stub: the file does not exist (harnesses that need file
 		// contents pre-populate caches instead)
